@@ -22,6 +22,26 @@ func init() {
 		doc := genObject(r, ka[0], ka[1])
 		g, v := resid.ParseGroupVersion(ka[1])
 		spec := types.FieldSpec{Path: pick(r, fsPaths), CreateIfNotPresent: r.Intn(2) == 0}
+		if r.Intn(3) == 0 {
+			// an INTERMEDIATE element of the path that exists but is null (`metadata:` with nothing under it)
+			segs := strings.Split(strings.Trim(spec.Path, "/"), "/")
+			if len(segs) >= 2 {
+				k := 1 + r.Intn(len(segs)-1)
+				cur := doc
+				ok := true
+				for _, sg := range segs[:k-1] {
+					nx := wGet(cur, strings.TrimSuffix(sg, "[]"))
+					if nx == nil {
+						ok = false
+						break
+					}
+					cur = nx
+				}
+				if a, isM := cur.([]interface{}); ok && isM && len(a) > 0 && a[0] == "m" {
+					wSet(cur, strings.TrimSuffix(segs[k-1], "[]"), wS("!!null", pick(r, []string{"null", "~", ""})))
+				}
+			}
+		}
 		switch r.Intn(5) {
 		case 0:
 			spec.Kind = pick(r, []string{"Deployment", "Service"})
